@@ -108,6 +108,14 @@ func genCaseC01(t *rapid.T) *Case {
 	default:
 		c.Op = rapid.SampledFrom(names).Draw(t, "opName")
 	}
+	if len(d.Ops) >= 2 && rapid.IntRange(0, 7).Draw(t, "unnamedOps") == 0 {
+		// two operations without a name (the second, at least, written with its keyword): nothing
+		// can be chosen, nothing may run
+		d.Ops[0].Name, d.Ops[1].Name = "", ""
+		d.Ops[0].Anon = rapid.Bool().Draw(t, "firstShortForm") && len(d.Ops[0].Vars) == 0 && len(d.Ops[0].Dirs) == 0 && d.Ops[0].Type == "query"
+		d.Ops[1].Anon = false
+		c.Op = ""
+	}
 	for _, td := range s.Types {
 		if td.Kind == hx.KObject && (p.Abstract || rapid.IntRange(0, 2).Draw(t, "reg"+td.Name) == 0) && strategy == "X" {
 			c.Register = append(c.Register, td.Name)
